@@ -6,5 +6,5 @@ CONSTANTS
   MaxRules = 0
   Wide = FALSE
   Late = 0
-INVARIANTS YearSound MonthSound MonthYearSound WeekSound HolidaySound DateSound
+INVARIANTS DateSoundR21
 CHECK_DEADLOCK FALSE
